@@ -296,6 +296,17 @@ impl Interp {
 			Ok(v) => Ok(Some(v)),
 			Err(e) =>
 				if self.fault_armed {
+					// Without background threads the caller of a pipeline step plays the worker:
+					// a worker records the error of its loop body (store_err) before it stops,
+					// which is what makes later commits fail and the shutdown sequence skip
+					// further log processing (the repository's own fault test does the same:
+					// "Set the background error explicitly as background threads are disabled").
+					if !self.background && matches!(what, "process_commits" | "flush_logs" | "enact_logs" | "clean_logs" | "process_reindex") {
+						if let Some(db) = self.db.as_ref() {
+							db.verif_store_err(&format!("pipeline step {what} failed: {e}"));
+							self.labels.insert("error-recorded-as-worker");
+						}
+					}
 					Ok(None)
 				} else {
 					fail!(format!("{what}-failed:{}", err_sig(&e)), "{what} returned error: {e}")
